@@ -133,8 +133,13 @@ macro_rules! c02_increment_accuracy {
             kani::assume(special <= 3);
             kani::assume(k >= 2 && k <= 20480);
             let t: f32 = match special { 0 => k as f32 / 1024.0, 1 => 0.001, 2 => 0.0015, _ => 20.0 };
-            let mut pa = Pa::new(fs);
+            // previous increment and counter arbitrary: the new setting must replace whatever was there
+            let prev: u32 = kani::any();
+            let acc0: u32 = kani::any();
+            kani::assume(acc0 <= MASK);
+            let mut pa = Pa::verif_from_parts(fs, acc0, acc0, prev, false);
             pa.set_period(t);
+            vassert!(pa.verif_acc() == acc0, "C02/set_period/leaves-the-counter-alone");
             let inc = pa.verif_inc();
             let n = t as f64 * fs as f64; // ticks per phase, exact
             let full = 16777216.0_f64;
@@ -160,8 +165,14 @@ macro_rules! c11_frequency_accuracy {
             let grid2: bool = kani::any();
             let f: f32 = if grid2 { (fs * k as f32) / 65536.0 } else { k as f32 / 64.0 };
             kani::assume(f <= fs);
-            let mut pa = Pa::new(fs);
+            // previous increment and phase arbitrary: a frequency change (also to 0 Hz) replaces the old
+            // increment and takes effect from the next tick without a phase jump
+            let prev: u32 = kani::any();
+            let acc0: u32 = kani::any();
+            kani::assume(acc0 <= MASK);
+            let mut pa = Pa::verif_from_parts(fs, acc0, acc0, prev, false);
             pa.set_frequency(f);
+            vassert!(pa.verif_acc() == acc0, "C11/set_frequency/no-phase-jump");
             let inc = pa.verif_inc();
             let want = 16777216.0_f64 * f as f64; // exact
             vassert!(inc as f64 * fs as f64 <= want * (1.0 + 1.1920928955078125e-7), "C11/increment/not-too-fast-beyond-f32-rounding");
@@ -172,4 +183,15 @@ macro_rules! c11_frequency_accuracy {
             vcover!(!grid2 && k == 1, "witness: 1/64 Hz");
         }
     };
+}
+
+// @harness prop=C10,C11 tier=quick timeout=120
+// @about reachability of phases by ticking: any counter value < 2^24, any increment a frequency in [0, sample rate] can produce (0..=2^24+2): after tick() the counter is again < 2^24, so every phase the oscillator reaches by ticking is one of the 2^24 values the waveform harnesses quantify over
+#[kani::proof]
+fn c10_tick_keeps_phase_in_range() {
+    let mut pa = any_pa(false);
+    kani::assume(pa.verif_inc() <= N24 + 2);
+    pa.tick();
+    vassert!(pa.verif_acc() <= MASK, "C10/tick/phase-stays-below-one-cycle");
+    vcover!(pa.verif_flag(), "witness: wrapped");
 }
